@@ -511,3 +511,60 @@ add("parallel-init-drain-reads-the-wrong-entry", F, ["C04"], "dfols/controller.p
 add("to-dict-converts-the-objective-unconditionally", F, ["C20"], "dfols/solver.py", "        soln_dict['obj'] = float(self.obj) if self.obj is not None else None\n", "        soln_dict['obj'] = float(self.obj)\n", "C20-8")
 add("s-to-dict-objective-guard-as-statement", S, ["C20"], "dfols/solver.py", "        soln_dict['obj'] = float(self.obj) if self.obj is not None else None\n",
     "        soln_dict['obj'] = None\n        if self.obj is not None:\n            soln_dict['obj'] = float(self.obj)\n")
+
+# ---- round 5: rules added for the round-5 seeds and for F03d
+# C03-5b: pre-repair form of F03d (h at the unclipped point) and a behaviour-preserving spelling of the repair
+add("h-added-at-the-unclipped-point", F, ["C03"], "dfols/model.py",
+    "            self.objval[k] += self.h(remove_scaling(self.as_absolute_coordinates(x), self.scaling_changes), *self.argsh)\n",
+    "            self.objval[k] += self.h(remove_scaling(self.xbase + x, self.scaling_changes), *self.argsh)\n", "C03-5b")
+add("s-h-point-through-a-temporary", S, ["C03", "C17", "C01", "C06"], "dfols/model.py",
+    "            self.objval[k] += self.h(remove_scaling(self.as_absolute_coordinates(x), self.scaling_changes), *self.argsh)\n",
+    "            x_evaluated = self.as_absolute_coordinates(x)\n            self.objval[k] += self.h(remove_scaling(x_evaluated, self.scaling_changes), *self.argsh)\n")
+# C07-21: format strings
+add("format-arity-one-argument-short", F, ["C07"], "dfols/controller.py",
+    "module_logger.info(\"Soft restart [currently, f = %g after %g function evals]\" % (self.model.objopt(), self.nf))",
+    "module_logger.info(\"Soft restart [currently, f = %g after %g function evals]\" % (self.model.objopt(),))", "C07-21")
+add_multi("bad-keys-as-tuple-and-str-dropped", F, ["C07"], [
+    ("dfols/params.py", "        return len(bad_keys) == 0, bad_keys\n", "        return len(bad_keys) == 0, tuple(bad_keys)\n"),
+    ("dfols/solver.py", "\"Bad parameters: %s\" % str(bad_keys)", "\"Bad parameters: %s\" % bad_keys")], "C07-21")
+add("s-bad-keys-as-tuple-str-kept", S, ["C07"], "dfols/params.py", "        return len(bad_keys) == 0, bad_keys\n", "        return len(bad_keys) == 0, tuple(bad_keys)\n")
+add("s-bad-keys-list-str-dropped", S, ["C07"], "dfols/solver.py", "\"Bad parameters: %s\" % str(bad_keys)", "\"Bad parameters: %s\" % bad_keys")
+# C04-5b: negative predicted reduction
+add("model-increase-only-logged", F, ["C04"], "dfols/controller.py",
+    "                exit_info = ExitInformation(EXIT_TR_INCREASE_ERROR, \"Trust region step gave model increase\")\n",
+    "                module_logger.warning(\"Trust region step gave model increase\")\n", "C04-5b")
+add("s-model-increase-test-swapped-operands", S, ["C04", "C07", "C10"], "dfols/controller.py", "        if pred_reduction < 0.0:\n            if len(self.model.projections) > 1:", "        if 0.0 > pred_reduction:\n            if len(self.model.projections) > 1:")
+# C04-7 / C18-11: loops over the furthest points
+add_multi("furthest-points-loop-unbounded", F, ["C04", "C18"], [
+    ("dfols/controller.py", "        for i in range(min(num_pts_to_move, len(furthest_points) - 1)):\n            # Determine which point to update (knew)\n            knew = furthest_points[i]\n\n            # Using adelt",
+     "        for i in range(num_pts_to_move):\n            # Determine which point to update (knew)\n            knew = furthest_points[i]\n\n            # Using adelt"),
+    ("dfols/solver.py", "                                       control.model.npt() - 1)  # cap at number of points", "                                       control.model.npt())  # cap at number of points")], "the-incumbent")
+add("s-furthest-points-loop-bounded-by-the-caller-only", S, ["C04", "C18"], "dfols/controller.py",
+    "        for i in range(min(num_pts_to_move, len(furthest_points) - 1)):\n            # Determine which point to update (knew)\n            knew = furthest_points[i]\n\n            # Using adelt",
+    "        for i in range(num_pts_to_move):\n            # Determine which point to update (knew)\n            knew = furthest_points[i]\n\n            # Using adelt")
+add("s-furthest-points-slice-form", S, ["C04", "C18"], "dfols/controller.py",
+    "        for i in range(min(num_pts_to_move, len(furthest_points) - 1)):\n            # Determine which point to update (knew)\n            knew = furthest_points[i]\n\n            # Using adelt",
+    "        for knew in furthest_points[:min(num_pts_to_move, len(furthest_points) - 1)]:\n            # Using adelt")
+# C18-10: npt and its maximum
+add("npt-increase-guarded-not-clamped", F, ["C18"], "dfols/solver.py",
+    "            npt += params(\"restarts.increase_npt_amt\")\n            npt = min(npt, params(\"restarts.max_npt\"))\n",
+    "            if npt < params(\"restarts.max_npt\"):\n                npt += params(\"restarts.increase_npt_amt\")\n", "C18-10")
+add("s-npt-increase-and-clamp-in-one-statement", S, ["C18", "C07"], "dfols/solver.py",
+    "            npt += params(\"restarts.increase_npt_amt\")\n            npt = min(npt, params(\"restarts.max_npt\"))\n",
+    "            npt = min(npt + params(\"restarts.increase_npt_amt\"), params(\"restarts.max_npt\"))\n")
+add("soft-restart-appends-the-full-amount", F, ["C18"], "dfols/controller.py",
+    "            num_pts_to_add = min(params(\"restarts.increase_npt_amt\"), params(\"restarts.max_npt\") - self.model.npt())\n",
+    "            num_pts_to_add = params(\"restarts.increase_npt_amt\")\n", "C18-10")
+# C19-4: rows saved for restoring
+add("restore-from-a-view", F, ["C19"], "dfols/controller.py", "                        dk = D[k,:].copy()\n", "                        dk = D[k,:]\n", "C19-4")
+# C10-3: atoms and the writes between them
+add("restart-decision-reads-the-stale-run-counter", F, ["C10"], "dfols/controller.py",
+    "        # A successful run is one where we reduced fopt\n        if self.model.objopt() < self.last_run_fopt:\n            self.last_successful_run = nruns_so_far\n        self.last_run_fopt = self.model.objopt()\n\n        ok_to_do_restart = (nruns_so_far - self.last_successful_run < params(\"restarts.max_unsuccessful_restarts\")) and \\\n                           (self.nf < self.maxfun)\n",
+    "        ok_to_do_restart = (nruns_so_far - self.last_successful_run < params(\"restarts.max_unsuccessful_restarts\")) and \\\n                           (self.nf < self.maxfun)\n        # A successful run is one where we reduced fopt\n        if self.model.objopt() < self.last_run_fopt:\n            self.last_successful_run = nruns_so_far\n        self.last_run_fopt = self.model.objopt()\n", "C10-3")
+# C16-3: base shift through a conditional
+add("shift-base-recomputes-the-constant-conditionally", F, ["C16"], "dfols/model.py",
+    "        self.model_const += np.dot(self.model_jac, xbase_shift)\n",
+    "        if self.model_jac_eval_nums is not None:\n            self.model_const = self.ropt() - np.dot(self.model_jac, self.xopt())\n", "C16-3")
+add("s-shift-base-update-under-a-trivial-branch", S, ["C16", "C01"], "dfols/model.py",
+    "        self.model_const += np.dot(self.model_jac, xbase_shift)\n",
+    "        if self.model_jac is not None:\n            self.model_const += np.dot(self.model_jac, xbase_shift)\n        else:\n            self.model_const = self.model_const + np.dot(self.model_jac, xbase_shift)\n")
